@@ -8,7 +8,8 @@ import numpy as np
 
 from symx.explore import Harness
 from symx import load
-from harness import common, ref
+from harness import common
+from harness import shared, ref
 from harness.c07 import BIN_TYPES, event
 
 BOUNDS = {
@@ -399,4 +400,6 @@ def harnesses(tier):
         Harness("scores", h_scores(N), "bs, ign0, spherical, marginal ratio, threshold mean through Data"),
         Harness("pit", h_pit(N), "PIT mean, deviation, slope, shape"),
         Harness("sequence", h_sequence(2), "two probabilistic scores in sequence on one dataset vs a fresh dataset"),
+        Harness("threshold_layouts", shared.h_threshold_layouts(2, 1), "inputs storing different threshold columns: each reads its own column"),
+        Harness("ensemble_probability", shared.h_ensemble_probability(2, 1, 2), "threshold probability from the valid ensemble members; none valid = missing"),
     ]
